@@ -180,8 +180,17 @@ def hyp_shard(ctx, shard):
     hyp_search(ctx, "documents", cases(), body, n, shard=shard)
 
 
+def fuzz_targets():
+    def body(c):
+        check(*c)
+    return {"documents": (cases(), body)}
+
+
 def run(ctx):
     ctx.pmap(hyp_shard, range(16))
+    if not ctx.quick:
+        from vf import fuzz
+        fuzz.campaign(ctx, ID, "documents", procs=8, runs=20000)
 
 
 def replay(case):
